@@ -48,6 +48,24 @@ def _gen_cases(ck):
             for pts in itertools.combinations_with_replacement(lat, k):
                 for perm in set(itertools.permutations(pts)):
                     yield "lattice", [list(map(float, p)) for p in perm]
+    # (a') coordinates of very different magnitudes: float coordinate sums tie although one point
+    #      dominates the other (the large coordinate absorbs the small one) - every permutation
+    bigs, tinies = [1e9, 5e8, 2e9, 1.0], [0.0, 1e-9, 2e-9, 1e-17, 3.0]
+    nabs = ck.pick(40, 400)
+    for _ in range(nabs):
+        m = rng.choice([2, 2, 3])
+        n = rng.randint(2, 4)
+        base = rng.choice(bigs)
+        pts = []
+        for _k in range(n):
+            if rng.random() < 0.7:
+                p = [base] + [rng.choice(tinies) for _ in range(m - 1)]
+            else:
+                p = [rng.choice(bigs)] + [rng.choice(tinies) for _ in range(m - 1)]
+            rng.shuffle(p) if rng.random() < 0.2 else None
+            pts.append(p)
+        for perm in set(itertools.permutations(map(tuple, pts))):
+            yield "absorb", [list(p) for p in perm]
     # (b) generated float sets: equal sums, negatives, duplicates, permutations of one set
     nrand = ck.pick(250, 3000)
     for t in range(nrand):
@@ -187,19 +205,30 @@ def run(ck):
             objs = [[float(ck.rng.randint(0, 3)) for _ in range(m)] for _ in range(n)]
             failed = [ck.rng.random() < 0.25 for _ in range(n)]
             path = os.path.join(tmpdir, f"r{t}.csv")
+            # rows are written in completion order, which is not job_id order with several workers
+            jobids = list(range(n))
+            if ck.rng.random() < 0.7:
+                ck.rng.shuffle(jobids)
             with open(path, "w") as f:
                 f.write("p:x," + ",".join(f"objective_{i}" for i in range(m)) + ",job_id\n")
                 for k, (o, fl) in enumerate(zip(objs, failed)):
                     cells = ["F"] * m if fl else [repr(v) for v in o]
-                    f.write(f"{k}," + ",".join(cells) + f",{k}\n")
+                    f.write(f"{k}," + ",".join(cells) + f",{jobids[k]}\n")
             ns = types.SimpleNamespace(is_master=True, _path_results=path)
-            case = {"kind": "column", "objs": objs, "failed": failed}
+            case = {"kind": "column", "objs": objs, "failed": failed, "job_ids": jobids}
             try:
                 Search.extend_results_with_pareto_efficient_indicator(ns)
                 import pandas as pd
 
                 df = pd.read_csv(path)
-                col = [bool(b) for b in df["pareto_efficient"].tolist()]
+                by_job = {int(j): bool(b) for j, b in zip(df["job_id"].tolist(), df["pareto_efficient"].tolist())}
+                if sorted(by_job) != list(range(n)) or len(df) != n:
+                    ck.fail("C11|rows-changed|pareto_efficient-column", "the rewrite changed the set of rows", case)
+                    continue
+                col = [by_job[jobids[k]] for k in range(n)]  # flag of the k-th written row, whatever the new row order
+                px = {int(j): int(x) for j, x in zip(df["job_id"].tolist(), df["p:x"].tolist())}
+                if any(px[jobids[k]] != k for k in range(n)):
+                    ck.fail("C11|rows-changed|pareto_efficient-column", "the rewrite detached rows from their job_id", case)
             except Exception as e:
                 if all(failed):
                     # all-failed tables: no numeric objective at all; the column is not defined by the property
